@@ -112,6 +112,13 @@ def c08(ctx):
         if hw < 50 or c["CommitDone"] < 100:
             raise Inconclusive("vacuous: eviction-heavy concurrent run produced %s, %d heap page writes" % (dict(c), hw))
     cov["concurrent_io_events"] = conc
+    # design of the log buffer under concurrency (spec/LogBuffer) and the workload that fills it during a flush
+    vlib.model_check(ctx, "LogBuffer", "LogBuffer", "MC_recheck.cfg", workers=8)
+    for cfg, inv in (("MC_coded.cfg", "NoOverflow"), ("MC_early.cfg", "ForcedAtReturn")):
+        r = vlib.tlc(ctx, "LogBuffer", "LogBuffer", cfg, workers=4, name="LogBuffer-" + cfg[:-4])
+        if r["rc"] == 0 or inv not in r["out"]:
+            raise Inconclusive("LogBuffer %s no longer violates %s: the design model lost its sensitivity" % (cfg, inv))
+    cov["log_storm"] = crash.logstorm(ctx, ["C08."])
     vlib.write_evidence(ctx, "model_checking", cov, ASSUME + ["concurrent runs: the recording wrapper does not serialise the device (a log write is recorded on completion, a page write on issue; two windows of three run with a slow log device), commit return is marked by hook VerifTxnEnd inside Commit after its log force"])
 
 
